@@ -34,6 +34,9 @@ GOENV = {
 }
 
 
+STALL_LIMIT = 10.0   # seconds
+
+
 class Inconclusive(Exception):
     """Infrastructure problem: never a violation (exit 2)."""
 
@@ -104,6 +107,23 @@ class Ctx:
         self._n = 0
         self._lock = threading.Lock()
         self._built = {}
+        # stall watchdog: a frozen or starved machine (a sandbox snapshot, a suspended VM) makes clocks jump - the built-in
+        # timeouts of the library (module start / stop, execution wait) then fire although nothing exceeded them
+        self._stall = 0.0
+        t = threading.Thread(target=self._watch, daemon=True)
+        t.start()
+
+    def _watch(self):
+        while True:
+            t0 = time.monotonic()
+            time.sleep(0.25)
+            gap = time.monotonic() - t0 - 0.25
+            if gap > self._stall:
+                self._stall = gap
+
+    def stalled(self):
+        """Longest time (seconds) this process was not scheduled or the clock jumped during the run."""
+        return self._stall
 
     # ---------------------------------------------------------------- scratch
     def sub(self, name):
@@ -268,6 +288,10 @@ def finish(ctx, level, coverage, assumptions, exit_on_done=True):
                 print("KNOWN-FINDING: property=%s %s [%s] %s" % (ctx.prop, hit["id"], v["sig"], hit["what"]))
         else:
             unknown.append(v)
+    if unknown and ctx.stalled() >= STALL_LIMIT:
+        # verdicts that rest on real timers are not reliable when the machine stood still: an infrastructure problem
+        raise Inconclusive("the machine stalled for %.0f s during the run (clock jump or frozen processes): %d rejection(s) not "
+                           "reported, first: %s" % (ctx.stalled(), len(unknown), unknown[0]["sig"]))
     # runs against a scratch worktree (seeded changes) leave /verif's evidence and replay files alone
     outdir = VERIF if REPO == "/repo" else os.path.join("/tmp", "verif-out-" + os.path.basename(REPO.rstrip("/")))
     rdir = os.path.join(outdir, "replay", ctx.prop)
